@@ -93,6 +93,11 @@ func TestVerif_C16(t *testing.T) {
 		c.Case(idx, func() interface{} {
 			return map[string]interface{}{"connections": nConn, "frames_per_connection": framesPerConn, "requesters": nReq, "feed_mode": feedMode, "hook_yield": hookYield, "GOMAXPROCS": runtime.GOMAXPROCS(0)}
 		}, func() {
+			// start like a fresh daemon: no processor / header left over from the previous case
+			// (otherwise the first requests legitimately return that case's last frame)
+			mu.Lock()
+			processor, headerInfo = nil, nil
+			mu.Unlock()
 			lg := &c16Log{}
 			var reqMu sync.Mutex
 			var reqs []c16Req
